@@ -27,6 +27,9 @@ import (
 )
 
 func faultErr(kind string) error {
+	if strings.HasSuffix(kind, "Syscall") {
+		kind = "Syscall"
+	}
 	switch kind {
 	case "Syscall":
 		return fmt.Errorf("wrapped: %w", &os.SyscallError{Syscall: "recvmsg", Err: syscall.ENETDOWN})
@@ -159,6 +162,27 @@ func runTeardown(t *testing.T, monitor bool, fault string, flood int, busy time.
 					time.Sleep(time.Duration(j)*50*time.Millisecond + time.Millisecond)
 				}
 			}
+		case "FWritePendSyscall":
+			// a dozen answers are pending in their random delays when the first of them fails to transmit:
+			// the others must never be transmitted on the old connection
+			mu.Lock()
+			failing = true
+			mu.Unlock()
+			for j := 0; j < 12; j++ {
+				old.readC <- rs(fmt.Sprintf("fe80::%x", 0x200+j))
+			}
+			for i := 0; i < 600; i++ {
+				time.Sleep(time.Millisecond)
+				mu.Lock()
+				f := failing
+				mu.Unlock()
+				if !f {
+					break
+				}
+			}
+			mu.Lock()
+			faultAt = failAt
+			mu.Unlock()
 		case "FWrite2Syscall":
 			mu.Lock()
 			failing = true
@@ -285,7 +309,7 @@ func TestVerifC10TD(t *testing.T) {
 	if verifh.Thorough() {
 		floods = []int{0, 1, 5, 15, 16, 17, 18, 40, 100}
 	}
-	faults := []string{"FReadSyscall", "FReadPerm", "FReadOther", "FTimeouts5", "FWriteSyscall", "FWrite2Syscall", "FWritePerm", "FWriteOther", "FLink", "FWatchClosed"}
+	faults := []string{"FReadSyscall", "FReadPerm", "FReadOther", "FTimeouts5", "FWriteSyscall", "FWrite2Syscall", "FWritePendSyscall", "FWritePerm", "FWriteOther", "FLink", "FWatchClosed"}
 	for _, mon := range []bool{false, true} {
 		for _, f := range faults {
 			if mon && len(f) > 6 && f[:6] == "FWrite" {
@@ -307,7 +331,7 @@ func TestVerifC10TD(t *testing.T) {
 				slack := int64(busy)
 				out.Emit(verifh.Case{
 					ID: id,
-					Coq: "(CTd " + verifh.App("mkTd", verifh.B(mon), strings.Replace(f, "FWrite2", "FWrite", 1), verifh.Z(int64(fl)), res.outcome, verifh.Z(res.delay), verifh.Z(slack),
+					Coq: "(CTd " + verifh.App("mkTd", verifh.B(mon), strings.Replace(strings.Replace(f, "FWrite2", "FWrite", 1), "FWritePend", "FWrite", 1), verifh.Z(int64(fl)), res.outcome, verifh.Z(res.delay), verifh.Z(slack),
 						verifh.Z(int64(res.ioAfter)), verifh.B(res.canary), verifh.B(res.leak)) + ")",
 					Input:    map[string]any{"monitor": mon, "fault": f, "flood": fl},
 					Observed: map[string]any{"outcome": res.outcome, "delay_ns": res.delay, "io_after": res.ioAfter, "canary": res.canary, "leak": res.leak},
